@@ -2,3 +2,4 @@
 import FontcProps.C07
 import FontcProps.C05
 import FontcProps.C14
+import FontcProps.C17
